@@ -44,6 +44,7 @@ type tserver struct {
 	max       map[string]uint32
 	vols      map[uint32]*RegVol
 	ec        map[uint32]*RegEc
+	ecDisk    map[uint32]string // an EC volume keeps its disk type on a server for the whole history
 	queue     []*master_pb.Heartbeat
 	sent      []*master_pb.Heartbeat
 	connected bool
@@ -78,7 +79,7 @@ func NewGen(rng *rand.Rand, p GenParams) *Gen {
 	multiDC := rng.Intn(3) > 0
 	for i := 0; i < n; i++ {
 		s := &tserver{idx: i, ip: fmt.Sprintf("10.0.0.%d", 1+i/2), port: 8080 + i%2,
-			max: map[string]uint32{}, vols: map[uint32]*RegVol{}, ec: map[uint32]*RegEc{}}
+			max: map[string]uint32{}, vols: map[uint32]*RegVol{}, ec: map[uint32]*RegEc{}, ecDisk: map[uint32]string{}}
 		if multiDC {
 			// rack names are reused across data centers; some servers use the defaults
 			switch rng.Intn(5) {
@@ -356,6 +357,10 @@ func (g *Gen) ecMount(s *tserver, vid uint32, collection, disk string, bits uint
 	}
 	e := s.ec[vid]
 	if e == nil {
+		if d, ok := s.ecDisk[vid]; ok {
+			disk = d
+		}
+		s.ecDisk[vid] = disk
 		e = &RegEc{Id: vid, Collection: collection, DiskType: disk}
 		s.ec[vid] = e
 	}
@@ -812,6 +817,16 @@ func (e *HExec) Concurrent(steps []HStep) error {
 	}
 }
 
+// DropSession detaches (without closing) the session of server idx and returns it;
+// for scenarios that manage a stream by hand (overlapping reconnect).
+func (e *HExec) DropSession(idx int) *HBSession {
+	e.mu.Lock()
+	defer e.mu.Unlock()
+	s := e.sess[idx]
+	delete(e.sess, idx)
+	return s
+}
+
 // Connected lists the servers that currently have a session.
 func (e *HExec) Connected() []int {
 	e.mu.Lock()
@@ -832,4 +847,45 @@ func (e *HExec) CloseAll() error {
 		}
 	}
 	return nil
+}
+
+// RunHistory executes steps one by one; after every step check is called with the
+// step, its classification and the list of steps executed so far (enough to
+// re-execute the case). check returns the servers whose session must be
+// re-established because a *listed* finding was just observed on them (resync);
+// the inserted steps are executed and checked like any other and are part of the
+// returned list. With replay=true nothing is inserted (the recorded list already
+// contains the resync steps).
+func RunHistory(ex *HExec, steps []HStep, replay bool, check func(st HStep, bi BeatInfo, executed []HStep) (resync []int)) (executed []HStep, err error) {
+	do := func(st HStep) ([]int, error) {
+		bi, err := ex.Step(st)
+		if err != nil {
+			return nil, err
+		}
+		executed = append(executed, st)
+		return check(st, bi, executed), nil
+	}
+	for _, st := range steps {
+		rs, err := do(st)
+		if err != nil {
+			return executed, err
+		}
+		if replay {
+			continue
+		}
+		for _, idx := range rs {
+			m := ex.Model.Server(idx)
+			if !m.Connected {
+				continue
+			}
+			full, ec := m.ResyncBeats()
+			for _, ins := range []HStep{{Kind: "close", Srv: idx, Tag: "resync"}, {Kind: "connect", Srv: idx, Tag: "resync"},
+				{Kind: "beat", Srv: idx, HB: full, Tag: "resync"}, {Kind: "beat", Srv: idx, HB: ec, Tag: "resync"}} {
+				if _, err := do(ins); err != nil {
+					return executed, err
+				}
+			}
+		}
+	}
+	return executed, nil
 }
